@@ -5,3 +5,4 @@ CONSTANTS
 INVARIANT SEmit
 INVARIANT SEmitEnds
 INVARIANT SEmitCmd
+INVARIANT SEmitLong
